@@ -338,6 +338,11 @@ func genC03(o *Out, r *rand.Rand, thorough bool) {
 		{"6k1/8/8/8/8/8/3n4/R3K3 w - - 0 1", []string{"m:a1a2", "m:g8h8", "m:a2a1", "m:h8g8", "m:a1a2", "m:g8h8", "m:a2a1"}, 1},
 		{"6k1/8/8/8/8/8/3n4/R3K3 w - - 0 1", []string{"m:a1a2", "m:g8h8", "m:a2a1", "m:h8g8", "m:a1a2", "m:g8h8"}, 2},
 		{"8/8/8/8/8/2k5/3n4/3K4 w - - 3 1", nil, 1}, {"8/8/4k3/8/8/3bB3/8/4K3 w - - 0 1", nil, 2}, {"8/5P2/8/8/8/2k5/6b1/3K4 w - - 0 1", nil, 2},
+		// every kind of move that restarts the count, made at clock 99: quiet promotion (mating / winning), capture-promotion,
+		// en passant, double step, castling does NOT restart it
+		{"7k/4P3/6K1/8/8/8/8/8 w - - 99 80", nil, 2}, {"7k/4P3/6K1/8/8/8/8/8 w - - 99 80", nil, 3}, {"8/4P3/8/8/8/k7/8/4K3 w - - 99 80", nil, 1},
+		{"3r3k/4P3/6K1/8/8/8/8/8 w - - 99 80", nil, 1}, {"4k3/8/8/8/3pP3/8/8/4K3 b - e3 99 80", nil, 1}, {"4k3/8/8/8/8/8/4P3/4K3 w - - 99 80", nil, 1},
+		{"4k3/8/8/8/8/8/8/R3K2R w KQ - 99 80", nil, 1},
 	} {
 		emit([]string{"full-static", "nup-static", "full-quiet"}[r.Intn(3)], h.fen, h.moves, []string{fmt.Sprintf("s:%d:%s:0", h.d, fullWin)})
 		o.Count("history:horizon-draw")
@@ -645,6 +650,28 @@ func genC12(o *Out, r *rand.Rand, thorough bool) {
 				o.Count("cancel-points:drawn-root")
 				o.Nontrivial(line)
 			}
+		}
+	}
+	// a halted (and a finished) search must leave the board fit for the rest of the game: the position it was run on comes back
+	// for the third time later, inside the tree of a later search - the take-backs of the first search must not have upset
+	// the repetition bookkeeping (a count that is only consulted when a position recurs)
+	for _, h := range []struct{ fen, before, after string }{
+		{fen.Initial, "m:g1f3 m:g8f6 m:f3g1 m:f6g8", "m:g1f3 m:g8f6 m:f3g1"},
+		{fen.Initial, "m:e2e4 m:e7e5 m:g1f3 m:b8c6 m:f3g1 m:c6b8", "m:g1f3 m:b8c6 m:f3g1"},
+		{"6k1/8/8/p7/P7/7P/8/6K1 w - - 0 1", "m:g1f2 m:g8f7 m:f2g1 m:f7g8", "m:g1f2 m:g8f7 m:f2g1"},
+	} {
+		b := boardFromLine(h.fen, strings.Split(h.before, " "))
+		ab, _ := searchCfg("full-static")
+		ctx := newPollCtx(0)
+		ab.Search(ctx, &search.Context{TT: search.NoTranspositionTable{}}, b.Fork(), 2)
+		for _, k := range []int{0, 2, ctx.polls / 2, ctx.polls - 1} {
+			if k < 0 {
+				continue
+			}
+			line := fmt.Sprintf("search 0 full-static 0 0 %s ; %s s:2:%s:%d %s s:2:%s:0 s:1:%s:0", h.fen, h.before, fullWin, k, h.after, fullWin, fullWin)
+			o.do(line)
+			o.Count("halt-then-repetition")
+			o.Nontrivial(line)
 		}
 	}
 	for i := 0; i < n; i++ {
